@@ -15,7 +15,7 @@ import re
 from fractions import Fraction
 
 FLOAT_TYS = ("f32", "f64")
-FLOAT_FNS = {"exp": "exp", "ln": "ln", "sqrt": "sqrt", "abs": "abs", "log2": "log2", "log10": "log10", "exp2": "exp2", "floor": "floor", "ceil": "ceil", "round": "round"}
+FLOAT_FNS = {"exp": "exp", "ln": "ln", "sqrt": "sqrt", "abs": "abs", "log2": "log2", "log10": "log10", "exp2": "exp2", "floor": "floor", "ceil": "ceil", "round": "round", "sin": "sin", "cos": "cos"}
 TRANSPARENT_METHODS = {"from", "into", "clone", "to_owned", "copied", "cloned", "borrow", "deref", "as_ref", "try_from", "try_into", "unwrap", "expect", "unwrap_or_default"}
 
 
